@@ -6,6 +6,7 @@ renderable."""
 import ast
 import re
 
+from .. import absint as A
 from .. import flow
 from .. import model as M
 from ..report import AnalysisError, need
@@ -33,163 +34,289 @@ def handler_swallows(h):
     return not any(isinstance(n, ast.Raise) for s in h.body for n in ast.walk(s))
 
 
+FAILURES = ('UnicodeDecodeError', 'ValueError', 'EOFError', 'AttributeError', 'MemoryError', 'TypeError')
+
+
+class FileHooks(A.Hooks):
+    """A scripted file system: os.path.exists, open, pickle.load (data or failure), pickle.dump (captured or failure)."""
+    def __init__(self, model, exists, content, load_fails=None, dump_fails=None):
+        self.model = model
+        self.cls = model.cls('plasTeX.Context', 'Context')
+        self.Macro = model.cls('plasTeX', 'Macro')
+        self.exists, self.content, self.load_fails, self.dump_fails = exists, content, load_fails, dump_fails
+
+    def keep(self, ev):
+        return False
+
+    def call(self, interp, node, fname, args, kwargs, state):
+        import copy
+        if fname == 'os.path.exists':
+            return self.exists
+        if fname == 'open':
+            if not self.exists and args[1:2] == ['rb']:
+                state.env['__exc'] = 'FileNotFoundError'
+                return A.TOP
+            return A.Obj('file', {})
+        if fname == 'pickle.load':
+            if self.load_fails:
+                state.env['__exc'] = self.load_fails
+                return A.TOP
+            return copy.deepcopy(self.content)
+        if fname == 'pickle.dump':
+            if self.dump_fails:
+                state.env['__exc'] = self.dump_fails
+                return A.TOP
+            state.env['__dumped'] = copy.deepcopy(args[0]) if A.is_concrete(args[0]) or isinstance(args[0], dict) else 'TOP'
+            return A.NONE
+        if fname == 'os.remove':
+            state.env['__removed'] = True
+            return A.NONE
+        if fname.endswith('.persist') and not args and isinstance(node.func, ast.Attribute):
+            recv = interp.ev(node.func.value, state)
+            if isinstance(recv, A.Obj):
+                return {'saved-from': recv.label}
+        if fname.endswith('.restore') and len(args) == 1 and isinstance(node.func, ast.Attribute):
+            recv = interp.ev(node.func.value, state)
+            if isinstance(recv, A.Obj):
+                recv.attrs['restored-from'] = args[0]
+                return A.NONE
+        if isinstance(node.func, ast.Subscript) and text(node.func.value) == 'self' and not args:
+            k = state.env.get('__new', 0)
+            state.env['__new'] = k + 1
+            key = interp.ev(node.func.slice, state)
+            return A.Obj('node%d' % k, {'class': key if isinstance(key, str) else 'TOP'}, cls=self.Macro)
+        if fname.startswith('log.'):
+            return A.NONE
+        if fname == 'dict' and not args and not kwargs:
+            return {}
+        return None
+
+
+def run_file_case(m, fn, hooks, env):
+    it = A.Interp(model=m, scope=fn, hooks=hooks, max_iter=8, exc_edges=False, inline=3, heap=True, precise_exc=True)
+    hooks.should_inline = A.private_only
+    outs = it.run_function(fn, env=env)
+    need(not it.imprecise, '%s: %s' % (fn.fullname, it.imprecise[:2]))
+    return outs
+
+
+def plain(x):
+    if isinstance(x, dict):
+        return tuple(sorted((k, plain(v)) for k, v in x.items()))
+    if isinstance(x, A.Obj):
+        return 'obj:%s' % x.label
+    return x if A.is_concrete(x) else 'TOP'
+
+
 def r201(chk, m):
-    R = chk.rule('R20.1', 'failure envelope: every pickle.load / open of saved label data lies inside a try whose handler catches '
-                 'every exception and does not re-raise; restore does nothing outside it after the existence test; persist '
-                 're-initialises only this renderer\'s table, keeps the other renderers\' data, and the write only warns', 7)
+    R = chk.rule('R20.1', 'persist / restore / the xr reader against a scripted file system (abstract interpretation): persist writes '
+                 'this renderer\'s labels into the saved table, keeps the sections of other renderers and entries it does not own, '
+                 'tolerates a missing or corrupt previous file and a failing write; restore files exactly this renderer\'s labels, '
+                 'each under its saved key, and never raises - whatever exception the unpickling of a damaged file produces', 12)
     Context = m.cls('plasTeX.Context', 'Context')
-    # restore
-    fn = m.find_method(Context, 'restore')
-    chk.analysed(fn)
-    body = [s for s in fn.node.body if not (isinstance(s, ast.Expr) and isinstance(s.value, ast.Constant)) and not isinstance(s, (ast.Import, ast.ImportFrom))]
-    ok_shape = len(body) == 2 and isinstance(body[0], ast.If) and 'os.path.exists(filename)' in text(body[0].test) and isinstance(body[1], ast.Try)
-    chk.verdict(R, 'restore: everything after the existence test is inside one try', ok_shape,
-                'Context.restore must consist of the existence test and one try block (found %s)' % [type(s).__name__ for s in body], chk.where(fn))
-    tr = body[1] if ok_shape else None
-    if tr is not None:
-        hs = tr.handlers
-        ok = len(hs) >= 1 and any(catches_everything(h) for h in hs) and all(handler_swallows(h) for h in hs) and not tr.finalbody
-        chk.verdict(R, 'restore: handler catches every exception and swallows it', ok,
-                    'the handler of Context.restore catches %s%s: a corrupt file can raise almost anything while unpickling '
-                    '(UnicodeDecodeError, ValueError, TypeError, MemoryError ...), which would abort processing of the document'
-                    % ([text(h.type) if h.type else 'bare' for h in hs], '' if all(handler_swallows(h) for h in hs) else ' and re-raises'), chk.where(fn, tr))
-        loads = [c for c in ast.walk(tr) if isinstance(c, ast.Call) and M.call_name(c) in ('pickle.load', 'open')]
-        chk.verdict(R, 'restore: load inside the envelope', len(loads) >= 2 and all(any(x is c for s in tr.body for x in ast.walk(s)) for c in loads),
-                    'pickle.load/open must be inside the try body', chk.where(fn))
-    # persist
-    fn = m.find_method(Context, 'persist')
-    chk.analysed(fn)
-    tries = [n for n in M.walk_no_nested(fn.node) if isinstance(n, ast.Try)]
-    load_try = [t for t in tries if any(isinstance(c, ast.Call) and M.call_name(c) == 'pickle.load' for s in t.body for c in ast.walk(s))]
-    dump_try = [t for t in tries if any(isinstance(c, ast.Call) and M.call_name(c) == 'pickle.dump' for s in t.body for c in ast.walk(s))]
-    ok = len(load_try) == 1 and all(catches_everything(h) and handler_swallows(h) for h in load_try[0].handlers) and load_try[0].handlers
-    reinit = ok and any(isinstance(n, ast.Assign) and text(n.targets[0]) == 'd' and text(n.value).replace(' ', '') == '{rtype:{}}'
-                        for h in load_try[0].handlers for s in h.body for n in ast.walk(s))
-    chk.verdict(R, 'persist: tolerant reload of the previous file', bool(ok and reinit),
-                'the reload of the old file must be inside a catch-all handler that re-initialises d = {rtype: {}}', chk.where(fn))
-    # missing renderer section: add it, keep the others
-    miss = [n for t in load_try for n in ast.walk(t) if isinstance(n, ast.If) and 'rtype not in' in text(n.test)]
-    okm = len(miss) == 1 and [text(s) for s in miss[0].body] == ['d[rtype] = {}']
-    chk.verdict(R, 'persist: a missing renderer section is added, the others are kept', okm,
-                'when the saved file has no section for this renderer, persist must do d[rtype] = {} (found %s): rebinding d drops the '
-                'labels saved by the other renderers' % [text(s) for n in miss for s in n.body], chk.where(fn))
-    # d[rtype] defined on every path before data = d[rtype]
-    def transfer(n, v):
-        if isinstance(n, ast.Assign) and text(n.targets[0]) == 'd':
-            return 'dict' if text(n.value).replace(' ', '') == '{rtype:{}}' else ('loaded' if 'pickle.load' in text(n.value) else 'other')
-        if isinstance(n, ast.Assign) and text(n.targets[0]) == 'd[rtype]':
-            return 'dict'
-        if isinstance(n, ast.If) and False:
-            return v
-        if isinstance(n, ast.Assign) and text(n.value) == 'd[rtype]':
-            return v + '|used' if not v.endswith('|used') else v
-        return v
-    normal, raised = flow.function_exits(fn.node, 'unset', transfer)
-    okd = bool(normal) and all(v.split('|')[0] in ('dict', 'loaded') and v.endswith('|used') for v in normal)
-    chk.verdict(R, 'persist: the renderer table exists before it is used', okd,
-                'at the exits of persist the table state is %s (dict or loaded+checked expected)' % sorted(normal), chk.where(fn))
-    okw = len(dump_try) == 1 and dump_try[0].handlers and all(handler_swallows(h) and (catches_everything(h)) for h in dump_try[0].handlers) and \
-        any('log.warning' in text(s) for h in dump_try[0].handlers for s in h.body)
-    chk.verdict(R, 'persist: a failing write only warns', bool(okw), 'the write of the label file must be inside a handler that only logs a warning', chk.where(fn))
-    # xr reader
+    Macro = m.cls('plasTeX', 'Macro')
+    per = m.find_method(Context, 'persist')
+    res = m.find_method(Context, 'restore')
+    need(per is not None and res is not None, 'Context.persist/restore not found')
+    chk.analysed(per)
+    chk.analysed(res)
+
+    def ctx():
+        NA, NB = A.Obj('NA', {}, cls=Macro), A.Obj('NB', {}, cls=Macro)
+        return A.Obj('context', {'persistentLabels': {'a': NA, 'b': NB}, 'labels': {}, 'warnOnUnrecognized': True}, cls=Context)
+    mine = {'a': {'saved-from': 'NA'}, 'b': {'saved-from': 'NB'}}
+    pcases = [
+        ('no previous file', dict(exists=False, content=None), {'HTML5': mine}),
+        ('a previous file with another renderer\'s section', dict(exists=True, content={'XHTML': {'z': 'old'}}), {'XHTML': {'z': 'old'}, 'HTML5': mine}),
+        ('a previous file with entries of this renderer', dict(exists=True, content={'HTML5': {'a': 'stale', 'q': 'keep'}}), {'HTML5': dict(mine, q='keep')}),
+    ] + [('a corrupt previous file (%s)' % f, dict(exists=True, content=None, load_fails=f), {'HTML5': mine}) for f in FAILURES[:3]]
+    for label, cfg, want in pcases:
+        c = ctx()
+        outs = run_file_case(m, per, FileHooks(m, **cfg), {'self': c, 'filename': 'doc.paux', 'rtype': 'HTML5'})
+        chk.paths += len(outs)
+        got = {(kind if kind != 'raise' else 'raise %s' % v, plain(s2.env.get('__dumped', '<nothing written>'))) for kind, s2, v in outs}
+        chk.decide(R, 'persist: %s' % label, {repr(g) for g in got}, {repr(('return', plain(want)))},
+                   'persist("doc.paux", "HTML5") with labels a, b and %s: (outcome, table written) = %s; expected %s'
+                   % (label, sorted(got, key=repr), plain(want)), chk.where(per))
+    for f in ('OSError', 'PicklingError', 'TypeError'):
+        outs = run_file_case(m, per, FileHooks(m, exists=False, content=None, dump_fails=f), {'self': ctx(), 'filename': 'doc.paux', 'rtype': 'HTML5'})
+        got = {kind if kind != 'raise' else 'raise %s' % v for kind, s2, v in outs}
+        chk.decide(R, 'persist: a failing write (%s) only warns' % f, got, {'return'},
+                   'when writing the label file fails with %s persist ends with %s; expected a warning only' % (f, sorted(got)), chk.where(per))
+    saved = {'HTML5': {'a': {'macroName': 'section', 'id': 'a'}, 'b': {'id': 'b'}}, 'XHTML': {'c': {'id': 'c'}}}
+    rcases = [('this renderer\'s labels are filed under their keys', dict(exists=True, content=saved), ('a', 'b')),
+              ('no section for this renderer', dict(exists=True, content={'XHTML': {'c': {}}}), ()),
+              ('no file', dict(exists=False, content=None), ())] + \
+        [('a damaged file (%s)' % f, dict(exists=True, content=None, load_fails=f), ()) for f in FAILURES]
+    for label, cfg, want in rcases:
+        c = ctx()
+        outs = run_file_case(m, res, FileHooks(m, **cfg), {'self': c, 'filename': 'other.paux', 'rtype': 'HTML5', '__ctx': c})
+        chk.paths += len(outs)
+        got = set()
+        for kind, s2, v in outs:
+            c2 = s2.env['__ctx']
+            labs = c2.attrs.get('labels')
+            desc = tuple(sorted((k, plain(n.attrs.get('restored-from')) if isinstance(n, A.Obj) else 'TOP') for k, n in labs.items())) if isinstance(labs, dict) else 'TOP'
+            got.add((kind if kind != 'raise' else 'raise %s' % v, desc, c2.attrs.get('warnOnUnrecognized') if A.is_concrete(c2.attrs.get('warnOnUnrecognized')) else 'TOP'))
+        w = ('return', tuple(sorted((k, plain(saved['HTML5'][k])) for k in want)), True)
+        chk.decide(R, 'restore: %s' % label, {repr(g) for g in got}, {repr(w)},
+                   'restore("other.paux", "HTML5") with %s: (outcome, labels filed -> data each node was restored from, warnOnUnrecognized) = %s; '
+                   'expected %s' % (label, sorted(got, key=repr), w), chk.where(res))
     lp = m.module('plasTeX.Packages.xr').functions.get('load_paux')
     need(lp is not None, 'xr.load_paux not found')
     chk.analysed(lp)
-    tries = [n for n in M.walk_no_nested(lp.node) if isinstance(n, ast.Try)]
-    ok = len(tries) == 1 and any(isinstance(c, ast.Call) and M.call_name(c) == 'pickle.load' for s in tries[0].body for c in ast.walk(s)) and \
-        all(catches_everything(h) and handler_swallows(h) for h in tries[0].handlers) and \
-        all(any(isinstance(r, ast.Return) for r in ast.walk(ast.Module(body=h.body, type_ignores=[]))) for h in tries[0].handlers)
-    chk.verdict(R, 'xr.load_paux: load inside a catch-all envelope returning an empty table', ok,
-                'the xr reader must catch every load failure and return an empty dictionary', chk.where(lp))
+    for label, cfg, want in [('a readable file', dict(exists=True, content={'HTML5': {'a': 1}}), plain({'HTML5': {'a': 1}})), ('no file', dict(exists=False, content=None), ())] + \
+            [('a damaged file (%s)' % f, dict(exists=True, content=None, load_fails=f), ()) for f in FAILURES]:
+        hk = FileHooks(m, **cfg)
+        hk.cls = None
+        outs = run_file_case(m, lp, hk, {'name': 'ext.paux'})
+        got = {(kind if kind != 'raise' else 'raise %s' % v, plain(v) if kind == 'return' else None) for kind, s2, v in outs}
+        chk.decide(R, 'xr.load_paux: %s' % label, {repr(g) for g in got}, {repr(('return', want))},
+                   'load_paux with %s gives %s; expected the table (an empty one when the file is missing or damaged) and no exception'
+                   % (label, sorted(got, key=repr)), chk.where(lp))
 
 
 def r202(chk, m):
-    R = chk.rule('R20.2', 'attribute round trip: every name in Macro.refAttributes is, after the remap of Macro.restore, assignable on a '
-                 'macro instance (plain attribute or property with setter); persist reads exactly these names and stringifies nodes', 7)
+    R = chk.rule('R20.2', 'attribute round trip on a heap object: Macro.restore({name: value}) succeeds for every name in '
+                 'Macro.refAttributes and stores the value where neither Macro nor the renderable mix-in has a read-only property; '
+                 'Macro.persist returns exactly the refAttributes that are set, nodes as strings', 7)
     Macro = m.cls('plasTeX', 'Macro')
     ra = m.class_const(Macro, 'refAttributes')
     need(isinstance(ra, list) and len(ra) >= 5, 'Macro.refAttributes does not fold')
     rest = m.find_method(Macro, 'restore')
-    chk.analysed(rest)
-    remap = {}
-    for n in M.walk_no_nested(rest.node):
-        if isinstance(n, ast.Assign) and text(n.targets[0]) == 'remap':
-            remap = m.eval_const(rest, n.value)
-    need(isinstance(remap, dict), 'Macro.restore: remap table not found')
-    uses = any(isinstance(c, ast.Call) and M.call_name(c) == 'setattr' and 'remap.get(key, key)' in text(c) for c in M.calls_in(rest.node))
-    for name in ra:
-        target = remap.get(name, name)
-        owner = m.find_attr_class(Macro, target)
-        settable = True
-        why = 'plain attribute'
-        if owner is not None and target in owner.properties:
-            settable = 'set' in owner.properties[target]
-            why = 'property %s a setter on %s' % ('with' if settable else 'WITHOUT', owner.fullname)
-        # renderer-provided read-only properties (mixed into Node while rendering)
-        rend = m.cls('plasTeX.Renderers', 'Renderable')
-        if target in rend.properties and 'set' not in rend.properties[target]:
-            settable = False
-            why = 'read-only property of the renderable mix-in'
-        chk.verdict(R, 'refAttribute %s -> %s' % (name, target), settable and uses,
-                    'saved attribute %r is restored by setattr(self, %r, value), but that is a %s: restoring such a label fails (and the '
-                    'failure is swallowed, the label is lost)' % (name, target, why), chk.where(rest), why)
     per = m.find_method(Macro, 'persist')
+    chk.analysed(rest)
     chk.analysed(per)
-    src = text(per.node)
-    ok = 'for name in self.refAttributes' in src and 'getattr(self, name, None)' in src and "isinstance(value, Node)" in src and 'attrs[name] = value' in src
-    chk.verdict(R, 'Macro.persist saves exactly the refAttributes', ok, 'Macro.persist must read every name of refAttributes (stringifying nodes)', chk.where(per))
+    rend = m.cls('plasTeX.Renderers', 'Renderable')
+
+    class H(A.Hooks):
+        cls = Macro
+
+        def keep(self, ev):
+            return False
+
+        def call(self, interp, node, fname, args, kwargs, state):
+            if fname == 'isinstance' and len(args) == 2 and text(node.args[1]).split('.')[-1] == 'Node':
+                return isinstance(args[0], A.Obj)
+            if fname == 'str' and len(args) == 1 and isinstance(args[0], A.Obj):
+                return 'str(%s)' % args[0].label
+            return None
+    for name in ra:
+        obj = A.Obj('node', {}, cls=Macro)
+        it = A.Interp(model=m, scope=rest, hooks=H(), max_iter=4, exc_edges=False, inline=4, heap=True, precise_exc=True)
+        outs = it.run_function(rest, env={'self': obj, 'attrs': {name: 'VALUE'}, '__o': obj})
+        got = set()
+        for kind, s2, v in outs:
+            o2 = s2.env['__o']
+            where_ = sorted(k for k, val in o2.attrs.items() if val == 'VALUE')
+            blocked = [k for k in where_ if k.lstrip('@') in rend.properties and 'set' not in rend.properties[k.lstrip('@')]]
+            got.add((kind if kind != 'raise' else 'raise %s' % v, 'stored' if where_ and not blocked else ('read-only while rendering: %s' % blocked if blocked else 'not stored')))
+        chk.decide(R, 'refAttribute %s is restorable' % name, got, {('return', 'stored')},
+                   'Macro.restore({%r: value}) gives %s; expected the value stored on the node (a read-only property makes the restore fail, '
+                   'the failure is swallowed by Context.restore and the label is lost)' % (name, sorted(got)), chk.where(rest))
+    title = A.Obj('titlenode', {}, cls=Macro)
+    obj = A.Obj('node', dict({k: None for k in ra}, macroName='section', title=title, id='sec:a'), cls=Macro)
+    hk = H()
+    hk.should_inline = A.private_only
+    it = A.Interp(model=m, scope=per, hooks=hk, max_iter=10, exc_edges=False, inline=3, heap=True, precise_exc=True)
+    outs = it.run_function(per, env={'self': obj, 'attrs': None, 'self.refAttributes': list(ra)})
+    got = {(kind, plain(v) if isinstance(v, dict) else 'TOP') for kind, s2, v in outs}
+    want = ('return', plain({'macroName': 'section', 'title': 'str(titlenode)', 'id': 'sec:a'}))
+    chk.decide(R, 'Macro.persist saves exactly the refAttributes that are set', {repr(g) for g in got}, {repr(want)},
+               'persist() of a node with macroName, a title node and an id (ref unset) gives %s; expected %s' % (sorted(got, key=repr), want), chk.where(per))
+
+
+def helper_calls(m, fn, depth=3):
+    """call node -> set of callee names it stands for: its own name plus the calls made inside resolved private helpers."""
+    from .c04 import resolved_calls
+    out = {}
+
+    def names_in(f, d, seen):
+        acc = set()
+        res = {id(c): cal for c, cal in resolved_calls(m, f)}
+        for c in M.calls_in(f.node):
+            acc.add(M.call_name(c))
+            cal = res.get(id(c))
+            if cal is not None and d > 0 and cal.fullname not in seen and cal.name.startswith('_') and not cal.name.startswith('__'):
+                acc |= names_in(cal, d - 1, seen | {cal.fullname})
+        return acc
+    res = {id(c): cal for c, cal in resolved_calls(m, fn)}
+    for c in M.calls_in(fn.node):
+        names = {M.call_name(c)}
+        cal = res.get(id(c))
+        if cal is not None and cal.name.startswith('_') and not cal.name.startswith('__'):
+            names |= names_in(cal, depth - 1, {fn.fullname, cal.fullname})
+        out[id(c)] = names
+    return out
+
+
+def origin_of(m, fn, expr, depth=4):
+    """Source text an argument expression comes from: follows local single assignments and, for a parameter of a private
+    helper, the argument at its (single) resolved call site."""
+    from .c04 import resolved_calls
+    if depth <= 0 or not isinstance(expr, ast.Name):
+        return text(expr)
+    assigns = [n.value for n in M.walk_no_nested(fn.node) if isinstance(n, ast.Assign) and any(isinstance(t, ast.Name) and t.id == expr.id for t in n.targets)]
+    if len(assigns) == 1:
+        return origin_of(m, fn, assigns[0], depth - 1)
+    params = [a.arg for a in fn.node.args.args]
+    if expr.id in params and not assigns:
+        idx = params.index(expr.id)
+        sites = []
+        for mod in m.modules.values():
+            if not mod.name.startswith('plasTeX') or 'simpletal' in mod.name:
+                continue
+            from .c05 import _all_functions
+            for f in _all_functions(mod):
+                for c, cal in resolved_calls(m, f):
+                    if cal is fn:
+                        skip = 1 if (fn.cls is not None and 'staticmethod' not in fn.decorators and isinstance(c.func, ast.Attribute)
+                                     and isinstance(c.func.value, ast.Name) and c.func.value.id in ('self', 'cls')) else 0
+                        j = idx - skip
+                        if 0 <= j < len(c.args):
+                            sites.append(origin_of(m, f, c.args[j], depth - 1))
+                        else:
+                            for k in c.keywords:
+                                if k.arg == expr.id:
+                                    sites.append(origin_of(m, f, k.value, depth - 1))
+        if len(set(sites)) == 1:
+            return sites[0]
+    return text(expr)
 
 
 def r203(chk, m):
-    R = chk.rule('R20.3', 'keys: both call sites use the renderer name from the same configuration entry; the own job file is skipped on '
-                 'restore; restore files every label under the key it was saved with, in the table of this renderer only', 4)
-    cp = m.module('plasTeX.Compile').functions.get('parse')
+    R = chk.rule('R20.3', 'keys: the label file is written under the renderer name taken from the same configuration entry '
+                 '(general/renderer) that Compile.parse uses to read it', 1)
+    from .c05 import reachable_private
     rr = m.func('plasTeX.Renderers', 'Renderer.render')
-    chk.analysed(cp)
     chk.analysed(rr)
-    def rname(fn):
-        return [text(n.value) for n in M.walk_no_nested(fn.node) if isinstance(n, ast.Assign) and text(n.targets[0]) == 'rname']
-    a, b = rname(cp), rname(rr)
-    ok = a == b == ["config['general']['renderer']"]
-    c1 = any(M.call_name(c).endswith('context.restore') and [text(x) for x in c.args] == ['fname', 'rname'] for c in M.calls_in(cp.node))
-    c2 = any(M.call_name(c).endswith('context.persist') and [text(x) for x in c.args] == ['pauxname', 'rname'] for c in M.calls_in(rr.node))
-    chk.verdict(R, 'renderer key from the same configuration entry', ok and c1 and c2,
-                'restore is called with %s and persist with %s' % (a, b), chk.where(cp))
-    from . import shared
+    found = []
+    for f in [rr] + reachable_private(m, rr):
+        for c in M.calls_in(f.node):
+            if M.call_name(c).endswith('context.persist') and len(c.args) >= 2:
+                found.append(origin_of(m, f, c.args[1]))
+    chk.verdict(R, 'renderer key from the same configuration entry', found == ["config['general']['renderer']"],
+                'the label file is written under the key %s; restore reads it under config[\'general\'][\'renderer\'] (see R20.5)' % found, chk.where(rr))
+    from . import shared, c09
     shared.paux_rules(chk, m, 'R20.5')
-    Context = m.cls('plasTeX.Context', 'Context')
-    fn = m.find_method(Context, 'restore')
-    loops = [n for n in ast.walk(fn.node) if isinstance(n, ast.For) and 'data.items()' in text(n.iter)]
-    ok = False
-    if len(loops) == 1:
-        kv = text(loops[0].target).replace(' ', '').strip('()').split(',')
-        stores = [n for n in ast.walk(loops[0]) if isinstance(n, ast.Assign) and text(n.targets[0]).startswith('self.labels[')]
-        ok = len(stores) == 1 and text(stores[0].targets[0]) == 'self.labels[%s]' % kv[0]
-        ok = ok and any(isinstance(c, ast.Call) and M.call_name(c) == 'n.restore' and text(c.args[0]) == kv[1] for c in ast.walk(loops[0]))
-    chk.verdict(R, 'restore files each label under its saved key', ok,
-                'Context.restore must store every restored node under the key it iterates (self.labels[key] = n) and restore its '
-                'attributes from the saved value: an object with several labels must keep all of them', chk.where(fn))
-    sel = [text(n.value) for n in ast.walk(fn.node) if isinstance(n, ast.Assign) and text(n.targets[0]) == 'data']
-    chk.verdict(R, 'restore reads this renderer\'s table only', sel == ['d[rtype]'], 'restore selects %s' % sel, chk.where(fn))
-    per = m.find_method(Context, 'persist')
-    src = text(per.node)
-    ok = 'for key, value in list(self.persistentLabels.items())' in src and 'data[key] = value.persist()' in src
-    chk.verdict(R, 'persist saves every persistent label under its key', ok, 'persist must save data[key] = value.persist() for all persistentLabels', chk.where(per))
+    c09.r95(chk, m, rule_id='R20.6')
 
 
 def r204(chk, m):
     R = chk.rule('R20.4', 'saved while renderable: in Renderer.render the persist call precedes the removal of the renderable mix-in '
-                 '(url - the target location - exists only while it is mixed in)', 1)
+                 '(url - the target location - exists only while it is mixed in); calls made inside private helpers count', 1)
     fn = m.func('plasTeX.Renderers', 'Renderer.render')
+    hc = helper_calls(m, fn)
 
     def transfer(n, v):
         mixed, saved = v
-        if isinstance(n, ast.Call) and M.call_name(n) == 'mixin':
+        names = hc.get(id(n), set()) if isinstance(n, ast.Call) else set()
+        if 'mixin' in names:
             mixed = True
-        if isinstance(n, ast.Call) and M.call_name(n) == 'unmix' or isinstance(n, ast.Delete) and any(text(t) == 'Node.renderer' for t in n.targets):
-            mixed = False
-        if isinstance(n, ast.Call) and M.call_name(n).endswith('context.persist'):
+        if any(x.endswith('context.persist') for x in names):
             saved = 'while-mixed' if mixed else 'after-unmix'
+        if 'unmix' in names or isinstance(n, ast.Delete) and any(text(t) == 'Node.renderer' for t in n.targets):
+            mixed = False
         return (mixed, saved)
     normal, raised = flow.function_exits(fn.node, (False, None), transfer)
     chk.verdict(R, 'Renderer.render persists before unmixing', normal == {(False, 'while-mixed')},
